@@ -163,6 +163,62 @@ func init() {
 var selftests = map[string]func(tier string) int{
 	// the simulated kernel against the real one: disagreement = the stub is
 	// not trustworthy = harness trouble (exit 2), never a violation
+	// determinism across processes and GOMAXPROCS values: the same run seed
+	// must give the same event-log hash everywhere
+	"selftest-determinism": func(tier string) int {
+		scratch, err := os.MkdirTemp("", "verif-det-")
+		if err != nil {
+			fatal2("mktemp: %v", err)
+		}
+		defer os.RemoveAll(scratch)
+		bad, total := 0, 0
+		for _, id := range []string{"C04", "C02", "C19", "C08", "C13", "C12"} {
+			pc := props[id]
+			bs, berr := buildEngine(pc, []string{"default"}, scratch)
+			if berr != nil {
+				fatal2("build failed:\n%v", berr)
+			}
+			nseeds := 30
+			if tier == "thorough" {
+				nseeds = 120
+			}
+			for i := 0; i < nseeds; i++ {
+				seed := fmt.Sprint(1000003*uint64(i+1) + 17)
+				var ref string
+				for _, procs := range []string{"1", "4", "16"} {
+					cmd := exec.Command(bs[0].bin, "-test.run", "^TestEngine$", "-test.count", "1")
+					cmd.Env = append(os.Environ(), "VERIF_MODE=one", "VERIF_PROP="+id, "VERIF_RUNSEED="+seed, "GOMAXPROCS="+procs)
+					out, _ := cmd.CombinedOutput()
+					h := ""
+					for _, l := range strings.Split(string(out), "\n") {
+						if j := strings.Index(l, "\"loghash\":\""); j >= 0 {
+							h = l[j+11:]
+							if k := strings.IndexByte(h, '"'); k >= 0 {
+								h = h[:k]
+							}
+							break
+						}
+					}
+					total++
+					if h == "" {
+						fmt.Fprintf(os.Stderr, "NONDETERMINISM? %s seed %s GOMAXPROCS=%s produced no log hash:\n%s\n", id, seed, procs, tail(string(out), 600))
+						bad++
+					} else if ref == "" {
+						ref = h
+					} else if h != ref {
+						fmt.Fprintf(os.Stderr, "NONDETERMINISM: %s seed %s: log hash %s with GOMAXPROCS=%s, %s with GOMAXPROCS=1\n", id, seed, h, procs, ref)
+						bad++
+					}
+				}
+			}
+			fmt.Printf("selftest-determinism: %s done\n", id)
+		}
+		fmt.Printf("selftest-determinism: %d executions in separate processes, %d disagreements\n", total, bad)
+		if bad > 0 {
+			return 2
+		}
+		return 0
+	},
 	"selftest-kernel": func(tier string) int {
 		total, bad := kernelconf.Run(os.Getenv("VERIF_VERBOSE") != "")
 		fmt.Printf("selftest-kernel: %d scripts, %d disagreements between linux and vsys\n", total, bad)
